@@ -82,7 +82,7 @@ func derivedFrom(a, b ssa.Value) bool {
 
 // C04 — no coins from nowhere.
 func C04(p *engine.Prog, r *engine.Report) {
-	r.Explanation = "Three structural necessary conditions of conservation, on every path: (R1) who-may-credit — every call of a crediting mutator (Add*/SetBalance/SetContractStake/DeployContract on balance, stake, locked/replenished stake, contract stake; enumerated from core/state's derived field effects) reachable from the state transition is classified by a checked rule: transfer (the same function debits an amount the credit is derived from), mint (the enclosing function is reachable only from the block/epoch reward functions), restore (contract env Commit writing back a per-transaction cache, itself fed only by guarded env operations) or predefined state; anything else is a violation; (R2) admission gate — ValidateTx succeeds only through checkIfNonNegative of every *big.Int field of Transaction (enumerated from the struct), ValidateFee, validateTotalCost (balance compared with a cost built by fee.CalculateCost/CalculateMaxCost) and the per-type validator; (R3) contract debits are behind balance >= amount and amount >= 0 of the same address, sub-call pay amounts are non-negative; (R4) the final-committee reward is capped by the remainder; (R5) the whole-balance transfer of ActivationTx subtracts the total cost (fee and tips), not only the fee. The numeric bounds themselves (non-negativity of every balance, issuance <= reward) quantify over big-int values and are NOT decided."
+	r.Explanation = "Three structural necessary conditions of conservation, on every path: (R1) who-may-credit — every call of a crediting mutator (Add*/SetBalance/SetContractStake/DeployContract on balance, stake, locked/replenished stake, contract stake; enumerated from core/state's derived field effects) reachable from the state transition is classified by a checked rule: transfer (the same function debits an amount the credit is derived from), mint (the enclosing function is reachable only from the block/epoch reward functions), restore (contract env Commit writing back a per-transaction cache, itself fed only by guarded env operations) or predefined state; anything else is a violation; (R2) admission gate — ValidateTx succeeds only through checkIfNonNegative of every *big.Int field of Transaction (enumerated from the struct), ValidateFee, validateTotalCost (balance compared with a cost built by fee.CalculateCost/CalculateMaxCost) and the per-type validator; (R3) contract debits are behind balance >= amount and amount >= 0 of the same address, sub-call pay amounts are non-negative; (R4) the final-committee reward is capped by the remainder; (R5) the whole-balance transfer of ActivationTx subtracts the total cost (fee and tips), not only the fee; (R6) every cache the contract env writes back in Commit (the 'restore' credits of R1: absolute balances and contract stakes) is re-created by Reset before each transaction, so a value buffered by one transaction is not re-applied by a later one of the block. The numeric bounds themselves (non-negativity of every balance, issuance <= reward) quantify over big-int values and are NOT decided."
 	r.Assumptions = []string{"big.Int arithmetic is exact", "a credit derived from a debited amount by share arithmetic does not exceed it (value-level, not decided)", "genesis/predefined state loaders are outside block processing"}
 	sm := getStateModel(p)
 	entries := e01(p, r)
@@ -556,4 +556,7 @@ func c04R5(p *engine.Prog, r *engine.Report, sm *stateModel) {
 		r.Check(hasCost, "C04-R5", "applyTxOnState|balance-derived debit in arm "+strings.Join(names, ",")+" subtracts the total cost", p.InstrPos(c), "amount = balance - getTxCost(...) (fee and tips are debited afterwards)", "the sender's whole balance minus only part of the cost is moved: the later fee/tips debits drive the balance negative, and the sign-dropping encoding turns that into new coins")
 	}
 	r.Floor("C04-R5", 1, "ActivationTx")
+	// ---------------- R6: "restore" credits (R1) replay a per-transaction cache: the cache must be per transaction
+	envCacheResetRule(p, r, "C04-R6", "vm/env", "EnvImp")
+	r.Floor("C04-R6", 5, "EnvImp caches written back by Commit")
 }
